@@ -96,6 +96,8 @@ func outputTupleDir(v rel.Value, dir string, fs afero.Fs, dryRun bool) error {
 				return err
 			}
 		}
+	} else if err != nil {
+		return err
 	}
 
 	// this is to allow empty directory
@@ -151,7 +153,7 @@ func entryPath(name string) (string, bool) {
 	return entry, true
 }
 
-func outputFile(content rel.Value, path string, fs afero.Fs, dryRun bool) error {
+func outputFile(content rel.Value, path string, fs afero.Fs, dryRun bool) (err error) {
 	var bytes []byte
 	switch content := content.(type) {
 	case rel.Bytes:
@@ -173,7 +175,11 @@ func outputFile(content rel.Value, path string, fs afero.Fs, dryRun bool) error 
 	if err != nil {
 		return err
 	}
-	defer f.Close()
+	defer func() {
+		if cerr := f.Close(); err == nil {
+			err = cerr
+		}
+	}()
 
 	if _, err = f.Write(bytes); err != nil {
 		return err
